@@ -9,6 +9,9 @@ restores the link.  Notification: a change of the cell a deferring attribute
 currently reads through produces exactly one call per mechanism with the new
 value; a change of any other cell produces none.  See DESIGN.md section 4 / C11.
 """
+import copy as copy_module
+import pickle
+
 from traits.api import (
     HasTraits, Instance, Int, Range, Str, CInt, Enum, Any, TraitError,
     DelegatesTo, PrototypedFrom, push_exception_handler,
@@ -24,10 +27,14 @@ META = {
              "each level drawn from {DelegatesTo, PrototypedFrom} x prefix style {same name, explicit "
              "name, 'pre_*', '*' with __prefix__} x listenable {True, False}; two candidate delegates "
              "at every level (two middles, two terminals, possibly of different target trait types "
-             "Int / Range / Str / CInt / Enum); recorders {on_trait_change, observe, both, none} on "
-             "every deferring attribute.  Ops: assign through a deferring attribute (valid, coerced "
-             "or invalid), assign the target on any terminal, swap a delegate reference, del a local "
-             "value, read.  After every op the cells (terminal values, decoy attributes, local "
+             "Int / Range / Str / CInt / Enum); per level the deferring class either defines its "
+             "traits and __prefix__ or inherits them from a base class; recorders {on_trait_change, "
+             "observe, both, none} on every deferring attribute.  Ops: assign through a deferring "
+             "attribute (valid, coerced or invalid), assign the target on any terminal, swap a "
+             "delegate reference, del a local value, read, and a round trip of the whole structure "
+             "through pickle (protocols 2-5) / copy.deepcopy / clone_traits after which the history "
+             "continues on the copies (their cells are adopted by observation, recorders are "
+             "re-attached).  After every op the cells (terminal values, decoy attributes, local "
              "values in __dict__), the values read through every deferring attribute and the "
              "recorded calls are compared with the interpreter.  distinct_nontrivial counts distinct "
              "(kinds, styles, listenable, op kind, outcome class, link state, notification verdict "
@@ -39,18 +46,31 @@ META = {
                   "notify_none_checked": 100000, "invalid_checked": 4000, "del_checked": 4000,
                   "swap_checked": 10000, "chain_ops": 40000, "must_after_swap": 4000,
                   "must_after_del": 1500, "must_through_chain": 2500,
-                  "coerced_assignments": 2500},
+                  "coerced_assignments": 2500,
+                  "roundtrip_pickle": 5000, "roundtrip_deepcopy": 2000, "roundtrip_clone": 2000,
+                  "none_linkbroken_after_pickle": 4000, "none_linkbroken_after_deepcopy": 2000,
+                  "none_linkbroken_after_clone": 2000, "must_after_pickle": 12000,
+                  "must_after_deepcopy": 4000, "must_after_clone": 4000,
+                  "must_inherited_prefix": 3500, "reads_inherited_prefix": 20000},
         "thorough": {"evaluations": 4500000, "ops": 1650000, "notify_must_checked": 480000,
                      "notify_none_checked": 2200000, "invalid_checked": 100000, "del_checked": 90000,
                      "swap_checked": 220000, "chain_ops": 800000, "must_after_swap": 100000,
                      "must_after_del": 38000, "must_through_chain": 55000,
-                     "coerced_assignments": 60000},
+                     "coerced_assignments": 60000,
+                     "roundtrip_pickle": 65000, "roundtrip_deepcopy": 26000, "roundtrip_clone": 26000,
+                     "none_linkbroken_after_pickle": 50000, "none_linkbroken_after_deepcopy": 30000,
+                     "none_linkbroken_after_clone": 30000, "must_after_pickle": 160000,
+                     "must_after_deepcopy": 55000, "must_after_clone": 55000,
+                     "must_inherited_prefix": 45000, "reads_inherited_prefix": 230000},
     },
     "assumptions": [
         "reading a plain (non-deferred) trait and obj.__dict__ are trusted observation channels",
         "the reference validators for Int/Range/Str/CInt/Enum on the small value pools are right",
         "'*' resolves with the __prefix__ of the class that declares the deferring attribute "
         "(Delegate docstring and ctraits), not of the delegate's class",
+        "which state a pickle / deepcopy / clone_traits copy preserves is not this property's "
+        "subject (C14): the copy's cells are adopted by observation, only its behaviour "
+        "afterwards is judged",
     ],
 }
 
@@ -133,8 +153,22 @@ def resolve(style, name, named, cls_prefix):
     return cls_prefix + name
 
 
-def deferrer_class(kind, style, listen, attr, named, cls_prefix):
-    key = ("D", kind, style, listen, attr, named, cls_prefix)
+def _new_class(name, bases, ns):
+    """Create a HasTraits class and register it at module level so that its
+    instances pickle (pickle finds classes by module + qualified name)."""
+    _cls_serial[0] += 1
+    name = "%s%d" % (name, _cls_serial[0])
+    ns = dict(ns)
+    ns["__module__"] = __name__
+    cls = type(HasTraits)(name, bases, ns)
+    globals()[name] = cls
+    return cls
+
+
+def deferrer_class(kind, style, listen, attr, named, cls_prefix, inherit=False):
+    """inherit: the instantiated class is an empty subclass; __prefix__ and the
+    deferring trait are defined on its base class."""
+    key = ("D", kind, style, listen, attr, named, cls_prefix, inherit)
     cls = _cls_cache.get(key)
     if cls is None:
         T = DelegatesTo if kind == "D" else PrototypedFrom
@@ -147,12 +181,13 @@ def deferrer_class(kind, style, listen, attr, named, cls_prefix):
             kw["prefix"] = "*"
         if not listen:
             kw["listenable"] = False
-        _cls_serial[0] += 1
-        cls = type(HasTraits)("Def%d" % _cls_serial[0], (HasTraits,), {
+        cls = _new_class("Def", (HasTraits,), {
             "__prefix__": cls_prefix,
             "p": Instance(HasTraits),
             attr: T("p", **kw),
         })
+        if inherit:
+            cls = _new_class("DefSub", (cls,), {})
         _cls_cache[key] = cls
     return cls
 
@@ -164,8 +199,7 @@ def terminal_class(target, tt, decoys):
         ns = {target: TT_MAKE[tt]()}
         for d in decoys:
             ns[d] = Any("decoy:" + d)
-        _cls_serial[0] += 1
-        cls = type(HasTraits)("Term%d" % _cls_serial[0], (HasTraits,), ns)
+        cls = _new_class("Term", (HasTraits,), ns)
         _cls_cache[key] = cls
     return cls
 
@@ -194,6 +228,7 @@ class Defer:
         self.obj = None
         self.swapped = False     # its reference was re-pointed at least once
         self.deleted = False     # its local value was deleted at least once
+        self.copied = None       # how the current object was produced by a round trip
 
 
 def m_end(n):
@@ -248,6 +283,11 @@ class Stop(Exception):
         self.key, self.msg, self.extra = key, msg, extra
 
 
+class EndQuietly(Exception):
+    """The history cannot be continued for a reason outside this property
+    (e.g. a copy that raised); it ends without a verdict."""
+
+
 class NullCtx:
     """Counter sink used while a failing history is re-run for shrinking."""
 
@@ -264,6 +304,26 @@ class NullCtx:
         pass
 
 
+ROUNDTRIPS = ["pickle2", "pickle3", "pickle4", "pickle5", "pickle5",
+              "deepcopy", "deepcopy", "clone", "clone"]
+
+
+def round_trip(how, objs):
+    """Copies of objs (same order, sharing preserved) through one mechanism."""
+    if how.startswith("pickle"):
+        return pickle.loads(pickle.dumps(objs, protocol=int(how[6:])))
+    if how == "deepcopy":
+        return copy_module.deepcopy(objs)
+    memo = {}
+    out = []
+    for o in objs:                       # clone_traits, delegates travel via the memo
+        c = memo.get(id(o))
+        if c is None:
+            c = o.clone_traits(memo=memo)
+        out.append(c)
+    return out
+
+
 class History:
     def __init__(self, ctx, hid, rng):
         self.ctx, self.hid, self.rng = ctx, hid, rng
@@ -271,6 +331,7 @@ class History:
         self.trace = []
         self.terms, self.defs, self.mechs = [], [], ()
         self.front_verdict = "-"
+        self.epoch = 0
         self.draw_config()
 
     # -- configuration ------------------------------------------------------
@@ -280,6 +341,9 @@ class History:
         self.levels = []
         for _ in range(self.depth):
             self.levels.append((rng.choice("DP"), rng.choice(STYLES), rng.random() < 0.75))
+        # class flavour per level: traits and __prefix__ defined on the class
+        # itself, or inherited from a base class
+        self.inherit = [rng.random() < 0.3 for _ in range(self.depth)]
         tt0 = rng.choice(TTYPES)
         tt1 = tt0 if rng.random() < 0.65 else rng.choice(TTYPES)
         self.tts = (tt0, tt1)
@@ -312,13 +376,15 @@ class History:
         self.decoys = tuple(sorted(decoys))
 
     def brief(self):
-        return "%s|%s|%s" % (">".join("%s:%s:%d" % lv for lv in self.levels),
-                             ",".join(self.tts), self.mix)
+        return "%s|%s|%s|%s" % (">".join("%s:%s:%d" % lv for lv in self.levels),
+                                ",".join(self.tts), self.mix,
+                                "".join("i" if i else "-" for i in self.inherit))
 
     def describe(self):
         return {"depth": self.depth,
-                "levels": [{"kind": KIND_NAME[k], "style": s, "listenable": l}
-                           for k, s, l in self.levels],
+                "levels": [{"kind": KIND_NAME[k], "style": s, "listenable": l,
+                            "class": "inherits traits and __prefix__" if inh else "defines them"}
+                           for (k, s, l), inh in zip(self.levels, self.inherit)],
                 "names": self.names, "terminal_types": self.tts, "prefixes": self.pref[:self.depth],
                 "recorders": self.mix, "late_ref": self.late_ref, "ctor_local": self.ctor_local,
                 "terminals_explicit": self.init_explicit,
@@ -346,7 +412,8 @@ class History:
         serial = 10
         for lv in range(self.depth - 1, -1, -1):
             kind, style, listen = self.levels[lv]
-            cls = deferrer_class(kind, style, listen, self.names[lv], named[lv], self.pref[lv])
+            cls = deferrer_class(kind, style, listen, self.names[lv], named[lv], self.pref[lv],
+                                 self.inherit[lv])
             count = 1 if lv == 0 else 2
             row = []
             for i in range(count):
@@ -369,26 +436,34 @@ class History:
             self.defs = row + self.defs      # front first, then the middles
             below = row
         self.front = self.defs[0]
-        # recorders on every deferring attribute
-        for d in self.defs:
-            if self.mix in ("both", "otc"):
-                d.obj.on_trait_change(self.make_otc(d.serial), d.attr)
-            if self.mix in ("both", "obs"):
-                d.obj.observe(self.make_obs(d.serial), d.attr)
+        self.decoy_vals = {(t.serial, dn): "decoy:" + dn for t in self.terms for dn in self.decoys}
         self.mechs = {"both": ("otc", "obs"), "otc": ("otc",), "obs": ("obs",), "none": ()}[self.mix]
+        self.attach_recorders()
 
-    def make_otc(self, serial):
+    def attach_recorders(self):
+        """Recorders on every deferring attribute of the current objects (the
+        epoch silences recorders left on objects replaced by a round trip)."""
+        self.epoch += 1
+        for d in self.defs:
+            if "otc" in self.mechs:
+                d.obj.on_trait_change(self.make_otc(d.serial, self.epoch), d.attr)
+            if "obs" in self.mechs:
+                d.obj.observe(self.make_obs(d.serial, self.epoch), d.attr)
+
+    def make_otc(self, serial, epoch):
         log = self.log
 
         def otc(obj, name, old, new):
-            log.append((serial, "otc", name, new))
+            if epoch == self.epoch:
+                log.append((serial, "otc", name, new))
         return otc
 
-    def make_obs(self, serial):
+    def make_obs(self, serial, epoch):
         log = self.log
 
         def obs(event):
-            log.append((serial, "obs", event.name, event.new))
+            if epoch == self.epoch:
+                log.append((serial, "obs", event.name, event.new))
         return obs
 
     # -- violations ---------------------------------------------------------
@@ -424,7 +499,7 @@ class History:
                           "terminal %s.%s holds %r, interpreter says %r" % (t.label, t.target, got, t.value))
             for dn in self.decoys:
                 got = getattr(t.obj, dn)
-                if got != "decoy:" + dn:
+                if got != self.decoy_vals[(t.serial, dn)]:
                     self.fail("%s/%s/%s" % (op, what_stored, st),
                               "unrelated attribute %s.%s became %r" % (t.label, dn, got))
         for d in self.defs:
@@ -447,6 +522,8 @@ class History:
                 self.fail("read/%s/%s" % (type(e).__name__, self.structure(d)),
                           "reading %s.%s raised %r" % (d.label, d.attr, e))
             exp = m_read(d)
+            if d.style == "star" and self.inherit[d.level]:
+                self.ctx.count("reads_inherited_prefix")
             if not same_value(got, exp):
                 self.fail("%s/%s/%s" % (op, what_read, self.structure(d)),
                           "%s.%s reads %r, interpreter says %r (levels %s)"
@@ -467,6 +544,10 @@ class History:
                 if verdict == "none":
                     ctx.ev()
                     ctx.count("notify_none_checked")
+                    if d.copied:
+                        ctx.count("none_after_roundtrip")
+                        if why == "link-broken":
+                            ctx.count("none_linkbroken_after_" + d.copied)
                     if calls:
                         self.fail("notify/spurious/%s/%s" % (kk, why),
                                   "%s handler of %s.%s called %r after %s although %s"
@@ -483,6 +564,10 @@ class History:
                         ctx.count("must_after_swap")
                     if any(l.deleted for l in levels):
                         ctx.count("must_after_del")
+                    if d.copied:
+                        ctx.count("must_after_" + d.copied)
+                    if d.style == "star" and self.inherit[d.level]:
+                        ctx.count("must_inherited_prefix")
                     if len(levels) > 1:
                         ctx.count("must_through_chain")
                     if not calls:
@@ -569,6 +654,9 @@ class History:
                 with_local = [d for d in ps if d.local is not ABSENT]
                 node = rng.choice(with_local) if with_local and rng.random() < 0.8 else rng.choice(ps)
                 return ("del", node.label)
+        if rng.random() < 0.75:
+            # the whole structure goes through a copy; the history continues on the copy
+            return ("roundtrip", rng.choice(ROUNDTRIPS))
         return ("read",)
 
     def draw_raw(self, node):
@@ -697,6 +785,8 @@ class History:
             self.check_notifications(verdicts, None, "del %s.%s" % (node.label, node.attr))
             ctx.count("del_checked")
             outcome = "restored" if had else "noop"
+        elif name == "roundtrip":
+            outcome = self.roundtrip(op[1])
         else:
             self.check_state("read", self.front, "stored-wrong", "read-wrong")
             self.check_exc_channel(name)
@@ -709,6 +799,54 @@ class History:
                     op[1][0] if len(op) > 1 else "-", outcome, front_local,
                     tuple(d.local is not ABSENT for d in self.defs[1:]),
                     self.front_verdict)
+
+    def roundtrip(self, how):
+        """Replace every object by its copy and *adopt* the copy's cells by
+        observation (which state a copy preserves is C14's subject, not this
+        property's: e.g. deepcopy/clone_traits assign a still linked
+        PrototypedFrom attribute and so break its link).  From then on the
+        copy must mirror and notify like any other structure."""
+        ctx = self.ctx
+        nodes = self.defs + self.terms
+        family = "pickle" if how.startswith("pickle") else how
+        try:
+            new = round_trip(how, [n.obj for n in nodes])
+        except Exception:  # noqa: BLE001 - not this property's subject
+            ctx.count("roundtrip_raised")
+            raise EndQuietly()
+        by_id = {id(o): n for o, n in zip(new, nodes)}
+        for n, o in zip(nodes, new):
+            n.obj = o
+        changed_link = False
+        for t in self.terms:
+            t.value = getattr(t.obj, t.target)
+            for dn in self.decoys:
+                self.decoy_vals[(t.serial, dn)] = getattr(t.obj, dn)
+        for d in self.defs:
+            tgt = by_id.get(id(d.obj.p))
+            if tgt is None or tgt not in d.cands:
+                ctx.count("roundtrip_unadoptable")
+                raise EndQuietly()
+            d.ref = tgt
+            dct = d.obj.__dict__
+            local = dct[d.attr] if d.attr in dct else ABSENT
+            if (local is ABSENT) != (d.local is ABSENT):
+                changed_link = True
+                ctx.count("roundtrip_link_broken_by_copy" if d.local is ABSENT
+                          else "roundtrip_link_restored_by_copy")
+            elif local is not ABSENT:
+                ctx.count("roundtrip_local_value_kept")
+            d.local = local
+            d.copied, d.swapped, d.deleted = family, False, False
+        self.attach_recorders()
+        del self.log[:]
+        del EXC[:]
+        # what remains to be judged here: every deferring attribute of the copy
+        # reads what the interpreter reads from the copy's cells
+        self.check_state("roundtrip", self.front, "stored-wrong", "read-wrong")
+        ctx.count("roundtrip_checked")
+        ctx.count("roundtrip_" + family)
+        return family + ("-link-changed" if changed_link else "")
 
     def check_exc_channel(self, op):
         if EXC:
@@ -736,6 +874,8 @@ class History:
                     self.step(op)
         except Stop as stop:
             return stop
+        except EndQuietly:
+            return None
         return None
 
 
@@ -756,7 +896,7 @@ def _obs_exc(event):
 def run(ctx):
     push_exception_handler(handler=_legacy_exc, reraise_exceptions=False, main=True)
     obs_push_exception_handler(handler=_obs_exc, reraise_exceptions=False)
-    nh = ctx.scale(30000, 600000)
+    nh = ctx.scale(30000, 400000)
     for h in range(nh):
         if not ctx.mine(h):
             continue
